@@ -20,6 +20,10 @@ pub enum TOp {
     Append(u8, DataSpec),
     /// open a write handle, write, set a timestamp while the handle is open, flush, drop
     SetDuring(u8, u8, u16, DataSpec),
+    /// a call on the entry that fails by contract (wrong-typed / already exists) or succeeds
+    /// without having anything to do (create_dir_all on an existing directory): all three
+    /// timestamps, length and type must be what they were
+    Idle(u8, u8),
 }
 
 #[derive(Clone, Debug)]
@@ -28,6 +32,9 @@ pub struct Case {
     pub ops: Vec<TOp>,
     /// additionally place an entry only in a lower layer (observation only)
     pub lower_probe: bool,
+    /// overlay stacks: the two directories also exist in the lowest layer (the overlay serves the
+    /// upper one), and the file /f0 exists there with other bytes
+    pub both: bool,
 }
 
 const ENTRIES: [(&str, bool); 4] = [("/f0", false), ("/d0/f1", false), ("/d0", true), ("/d0/d1", true)];
@@ -76,11 +83,12 @@ fn top_strategy() -> impl Strategy<Value = TOp> {
         2 => (any::<u8>(), data_strategy()).prop_map(|(e, d)| TOp::Write(e, d)),
         2 => (any::<u8>(), data_strategy()).prop_map(|(e, d)| TOp::Append(e, d)),
         2 => (any::<u8>(), any::<u8>(), any::<u16>(), data_strategy()).prop_map(|(e, f, t, d)| TOp::SetDuring(e, f, t, d)),
+        3 => (any::<u8>(), any::<u8>()).prop_map(|(e, k)| TOp::Idle(e, k)),
     ]
 }
 
 fn strategy() -> impl Strategy<Value = Case> {
-    (cfg_strategy(2), proptest::collection::vec(top_strategy(), 1..16), any::<bool>()).prop_map(|(cfg, ops, lower_probe)| Case { cfg, ops, lower_probe })
+    (cfg_strategy(2), proptest::collection::vec(top_strategy(), 1..16), any::<bool>(), any::<bool>()).prop_map(|(cfg, ops, lower_probe, both)| Case { cfg, ops, lower_probe, both })
 }
 
 fn base_leaf(c: &Cfg) -> &'static str {
@@ -125,6 +133,7 @@ fn test(case: &Case, st: &mut Stats, counting: bool) -> CaseResult {
     let times = usable_times();
     let mut trace: Vec<String> = vec![];
     let mut facts = (0usize, 0usize, false, 0usize, 0usize, 0usize); // sets ok, not-supported, subsec, fields-with-session-between cases, lower-only observations
+    let mut idle_total = 0usize;
     let r = guarded(|| -> Result<(), (usize, String)> {
         let e0 = |m: String| (0usize, m);
         let n = case.cfg.overlay_layers();
@@ -133,6 +142,15 @@ fn test(case: &Case, st: &mut Stats, counting: bool) -> CaseResult {
             prepop.push((n - 1, "/low".to_string(), Node::File(std::sync::Arc::new(b"lower".to_vec()))));
             prepop.push((n - 1, "/lowd".to_string(), Node::Dir));
             prepop.push((n - 1, "/lowd/in".to_string(), Node::File(std::sync::Arc::new(b"inner".to_vec()))));
+        }
+        let both = case.both && n >= 2;
+        if both {
+            for l in [0, n - 1] {
+                prepop.push((l, "/d0".to_string(), Node::Dir));
+                prepop.push((l, "/d0/d1".to_string(), Node::Dir));
+            }
+            prepop.push((n - 1, "/d0/lowchild".to_string(), Node::File(std::sync::Arc::new(b"c".to_vec()))));
+            prepop.push((n - 1, "/f0".to_string(), Node::File(std::sync::Arc::new(b"lower bytes".to_vec()))));
         }
         let built = build(&case.cfg, &prepop).map_err(e0)?;
         let root = built.root.clone();
@@ -147,6 +165,7 @@ fn test(case: &Case, st: &mut Stats, counting: bool) -> CaseResult {
         let mut fields_set: std::collections::BTreeMap<&str, Vec<(TimeField, usize)>> = Default::default();
         let mut sessions_at: std::collections::BTreeMap<&str, Vec<usize>> = Default::default();
         let mut st_during = 0usize;
+        let mut st_idle = 0usize;
         for (i, op) in case.ops.iter().enumerate() {
             let step = i + 1;
             match op {
@@ -234,6 +253,32 @@ fn test(case: &Case, st: &mut Stats, counting: bool) -> CaseResult {
                                 break;
                             }
                         }
+                    }
+                }
+                TOp::Idle(e, k) => {
+                    let (path, is_dir) = ENTRIES[idx((*e as u16) << 8, ENTRIES.len())];
+                    let p = at(&root, path).map_err(|e| (step, e.to_string()))?;
+                    let before = m_of(&p.metadata().map_err(|e| (step, format!("metadata('{}') failed: {}", path, e)))?);
+                    let (name, ok): (&str, bool) = match (is_dir, k % 4) {
+                        (true, 0) => ("create_dir", p.create_dir().is_ok()),
+                        (true, 1) => ("create_dir_all", p.create_dir_all().is_ok()),
+                        (true, 2) => ("create_file", p.create_file().is_ok()),
+                        (true, _) => ("append_file", p.append_file().is_ok()),
+                        (false, 0) => ("create_dir", p.create_dir().is_ok()),
+                        (false, 1) => ("read_dir", p.read_dir().is_ok()),
+                        (false, 2) => ("remove_dir", p.remove_dir().is_ok()),
+                        (false, _) => ("create_dir_all", p.create_dir_all().is_ok()),
+                    };
+                    let expect_ok = is_dir && k % 4 == 1;
+                    trace.push(format!("{}('{}') on the existing {} -> {}", name, path, if is_dir { "directory" } else { "file" }, if ok { "Ok" } else { "Err" }));
+                    // (whether the call's own outcome is right is C01's business; here only calls
+                    // that behaved as the contract says are judged)
+                    if ok == expect_ok {
+                        let after = m_of(&p.metadata().map_err(|e| (step, format!("metadata('{}') failed after {}: {}", path, name, e)))?);
+                        if after != before {
+                            return Err((step, format!("{}('{}') {} but the entry's metadata changed: before {:?} after {:?}", name, path, if ok { "had nothing to do" } else { "failed" }, before, after)));
+                        }
+                        st_idle += 1;
                     }
                 }
                 TOp::SetDuring(e, f, t, d) => {
@@ -325,6 +370,7 @@ fn test(case: &Case, st: &mut Stats, counting: bool) -> CaseResult {
             }
         }
         facts.5 = st_during;
+        idle_total = st_idle;
         for (p, sets) in &fields_set {
             let kinds: std::collections::BTreeSet<TimeField> = sets.iter().map(|(f, _)| *f).collect();
             if kinds.len() >= 2 {
@@ -341,7 +387,7 @@ fn test(case: &Case, st: &mut Stats, counting: bool) -> CaseResult {
     });
     let mk = |step: usize, msg: String| Failure {
         message: format!("stack {} | step {}: {}\n  trace:\n    {}", case.cfg.render(), step, msg, trace.join("\n    ")),
-        replay: json!({"kind": "c19", "cfg": case.cfg.to_json(), "lower_probe": case.lower_probe, "ops": ops_to_json(&case.ops)}),
+        replay: json!({"kind": "c19", "cfg": case.cfg.to_json(), "lower_probe": case.lower_probe, "both": case.both, "ops": ops_to_json(&case.ops)}),
     };
     match r {
         Err(p) => Err(mk(0, format!("PANIC: {}", p))),
@@ -355,6 +401,10 @@ fn test(case: &Case, st: &mut Stats, counting: bool) -> CaseResult {
                 st.label_n("setters_not_supported_verified", facts.1 as u64);
                 st.label_n("lower_only_setters_checked", facts.4 as u64);
                 st.label_n("setters_during_open_handle_verified", facts.5 as u64);
+                st.label_n("failing_or_idle_calls_verified", idle_total as u64);
+                if case.both && case.cfg.overlay_layers() >= 2 {
+                    st.label("directories_present_in_upper_and_lowest_layer");
+                }
                 if nt {
                     st.nontrivial.insert(crate::util::fnv_str(&format!("{:?}", case)));
                 }
@@ -371,6 +421,7 @@ fn ops_to_json(ops: &[TOp]) -> Value {
         TOp::Write(e, d) => json!(["write", e, crate::hist::data_to_json(d)]),
         TOp::Append(e, d) => json!(["append", e, crate::hist::data_to_json(d)]),
         TOp::SetDuring(e, f, t, d) => json!(["during", e, f, t, crate::hist::data_to_json(d)]),
+        TOp::Idle(e, k) => json!(["idle", e, k]),
     }).collect())
 }
 
@@ -380,6 +431,7 @@ fn ops_from_json(v: &Value) -> Vec<TOp> {
         let u = |i: usize| x.get(i).and_then(|y| y.as_u64());
         match x.first()?.as_str()? {
             "set" => Some(TOp::Set(u(1)? as u8, u(2)? as u8, u(3)? as u16, u(4)? as u32)),
+            "idle" => Some(TOp::Idle(u(1)? as u8, u(2)? as u8)),
             "write" => Some(TOp::Write(u(1)? as u8, crate::hist::data_from_json(x.get(2)?)?)),
             "during" => Some(TOp::SetDuring(u(1)? as u8, u(2)? as u8, u(3)? as u16, crate::hist::data_from_json(x.get(4)?)?)),
             _ => Some(TOp::Append(u(1)? as u8, crate::hist::data_from_json(x.get(2)?)?)),
@@ -392,12 +444,13 @@ pub fn replay(v: &Value) -> CaseResult {
         cfg: Cfg::from_json(v.get("cfg").unwrap_or(&Value::Null)).unwrap_or(Cfg::Mem),
         ops: ops_from_json(v.get("ops").unwrap_or(&Value::Null)),
         lower_probe: v.get("lower_probe").and_then(|x| x.as_bool()).unwrap_or(false),
+        both: v.get("both").and_then(|x| x.as_bool()).unwrap_or(false),
     };
     let mut st = Stats::default();
     test(&case, &mut st, false)
 }
 
-const RULE: &str = "time values from {epoch, +-1s, +-1e9, +-2e9, 2^31 boundary, 4e9, 1e10, 1.5e10 s} x {0,1,999999999,5e8,123456789,1000 ns} plus random sub-second parts, filtered at start-up by RAW OS calls to what the scratch filesystem round-trips exactly; the three setters in random order and repetition on two files and two directories, interleaved with create and append sessions; stacks Mem/Phys/altroot/overlay (entry in the upper layer) incl. nesting; oracle: metadata immediately before/after each setter: Ok => set field exact, the two other timestamps, length and type unchanged, bytes unchanged; unsupported (creation time over PhysicalFS) => NotSupported and metadata unchanged; supported setters must succeed; MemoryFS append keeps created; altroot/overlay report the timestamps of the served entry; non-trivial = >=2 different fields set on one entry with a write/append session between, and a value with a non-zero sub-second part";
+const RULE: &str = "time values from {epoch, +-1s, +-1e9, +-2e9, 2^31 boundary, 4e9, 1e10, 1.5e10 s} x {0,1,999999999,5e8,123456789,1000 ns} plus random sub-second parts, filtered at start-up by RAW OS calls to what the scratch filesystem round-trips exactly; the three setters in random order and repetition on two files and two directories, interleaved with create and append sessions and with calls on the entry that fail by contract or have nothing to do (create_dir / create_file / append_file on an existing directory, create_dir_all on it, create_dir / read_dir / remove_dir on a file): those must leave all three timestamps, length and type untouched; stacks Mem/Phys/altroot/overlay (entry in the upper layer; in half of the overlay cases the directories also exist in the lowest layer and /f0 exists there with other bytes) incl. nesting; oracle: metadata immediately before/after each setter: Ok => set field exact, the two other timestamps, length and type unchanged, bytes unchanged; unsupported (creation time over PhysicalFS) => NotSupported and metadata unchanged; supported setters must succeed; MemoryFS append keeps created; altroot/overlay report the timestamps of the served entry; non-trivial = >=2 different fields set on one entry with a write/append session between, and a value with a non-zero sub-second part";
 
 pub fn run(ctx: &RunCtx) -> i32 {
     let usable = usable_times().len();
@@ -414,5 +467,5 @@ pub fn run(ctx: &RunCtx) -> i32 {
     let (stats, failure) = run_sharded(ctx, "times", ctx.tier.pick(30_000, 2_000_000), strategy, test);
     let pre_epoch_subsec = usable_times().iter().filter(|(s, n)| *s < 0 && *n != 0).count();
     write_evidence(ctx, "exploration", RULE, &stats, json!({"regress_replayed": reg.replayed, "usable_time_values": usable, "usable_pre_epoch_with_subsec": pre_epoch_subsec}), &["time values the host filesystem cannot round-trip natively are outside the generator's domain", "for entries that exist only in a lower overlay layer a setter need not succeed, but Ok must be exact and Err must change nothing"], failure.is_some() as u32);
-    finish(ctx, &stats, &failure, &[("distinct_nontrivial", 100), ("base:mem", 100), ("base:phys", 100), ("setters_not_supported_verified", 50)])
+    finish(ctx, &stats, &failure, &[("distinct_nontrivial", 100), ("base:mem", 100), ("base:phys", 100), ("setters_not_supported_verified", 50), ("failing_or_idle_calls_verified", 500), ("directories_present_in_upper_and_lowest_layer", 100)])
 }
